@@ -931,11 +931,57 @@ type vc19Rec struct {
 	CaseID  string
 	Hdr     http.Header
 	Trailer http.Header
+
+	// Srv is the harness listener that received the request: "backend" (the
+	// proxy's target) or "other" (a listener the proxy has no business with).
+	Srv string
 }
+
+// vc19Plan is how the backend answers the next request it receives.
+type vc19Plan struct {
+	Status   int
+	Location string
+	Kind     string // class label of the Location target, "" if none
+}
+
+func (p vc19Plan) redirect() bool { return p.Status >= 300 && p.Status < 400 }
 
 type vc19Backend struct {
 	mu   sync.Mutex
 	recs []vc19Rec
+
+	// plan, if set, is consumed by the first request that arrives; whatever
+	// arrives after it (nothing should) is answered with a plain 200.
+	plan *vc19Plan
+}
+
+func (b *vc19Backend) setPlan(p *vc19Plan) {
+	b.mu.Lock()
+	defer b.mu.Unlock()
+
+	b.plan = p
+}
+
+// vc19Other returns the handler of the other listener: it records into the
+// same list and answers 200.
+func (b *vc19Backend) vc19Other() (h http.Handler) {
+	return http.HandlerFunc(func(w http.ResponseWriter, r *http.Request) {
+		_, _ = io.Copy(io.Discard, r.Body)
+
+		b.mu.Lock()
+		b.recs = append(b.recs, vc19Rec{
+			Method: r.Method,
+			URI:    r.RequestURI,
+			Path:   r.URL.Path,
+			Host:   r.Host,
+			CaseID: r.Header.Get("X-Vc19-Case"),
+			Hdr:    r.Header.Clone(),
+			Srv:    "other",
+		})
+		b.mu.Unlock()
+
+		_, _ = io.WriteString(w, "vc19-other-listener")
+	})
 }
 
 func (b *vc19Backend) ServeHTTP(w http.ResponseWriter, r *http.Request) {
@@ -950,11 +996,27 @@ func (b *vc19Backend) ServeHTTP(w http.ResponseWriter, r *http.Request) {
 		CaseID:  r.Header.Get("X-Vc19-Case"),
 		Hdr:     r.Header.Clone(),
 		Trailer: r.Trailer.Clone(),
+		Srv:     "backend",
 	})
+	plan := b.plan
+	b.plan = nil
 	b.mu.Unlock()
 
 	w.Header().Set("Content-Type", "text/plain")
-	_, _ = io.WriteString(w, "vc19-backend-ok")
+	if plan == nil {
+		_, _ = io.WriteString(w, "vc19-backend-ok")
+
+		return
+	}
+
+	if plan.Location != "" {
+		w.Header().Set("Location", plan.Location)
+	}
+
+	w.WriteHeader(plan.Status)
+	if plan.Status != http.StatusNoContent {
+		_, _ = io.WriteString(w, "vc19-backend-status")
+	}
 }
 
 func (b *vc19Backend) take() (recs []vc19Rec) {
@@ -1029,6 +1091,9 @@ type vc19Fixture struct {
 	backend *vc19Backend
 	errs    *vc19ErrColl
 	fronts  []*vc19Front
+
+	backendURL string // of the proxy's target server
+	otherURL   string // of the other listener
 }
 
 // vc19NewServer returns the *http.Server that websvc.New builds for a linked_ip
@@ -1062,6 +1127,11 @@ func vc19NewFixture(t *testing.T) (f *vc19Fixture) {
 
 	bsrv := httptest.NewServer(f.backend)
 	t.Cleanup(bsrv.Close)
+
+	osrv := httptest.NewServer(f.backend.vc19Other())
+	t.Cleanup(osrv.Close)
+
+	f.backendURL, f.otherURL = bsrv.URL, osrv.URL
 
 	// Two plain binds (with and without a base path in the target) and one TLS
 	// bind, served the way mustStartServer serves it: Serve on a TLS listener
@@ -1243,6 +1313,7 @@ func (c *vc19Client) do(method string, raw []byte) (resp vc19Resp, reused, timed
 
 	resp.Status = hr.StatusCode
 	resp.Body = string(body)
+	resp.Location = hr.Header.Get("Location")
 	if hr.Close || hr.ProtoMajor == 1 && hr.ProtoMinor == 0 || c.br.Buffered() > 0 {
 		c.close()
 	}
@@ -1252,9 +1323,10 @@ func (c *vc19Client) do(method string, raw []byte) (resp vc19Resp, reused, timed
 
 // vc19Resp is what the client saw.
 type vc19Resp struct {
-	Status int
-	Body   string
-	Local  netip.Addr
+	Status   int
+	Body     string
+	Location string
+	Local    netip.Addr
 }
 
 func vc19IsTimeout(err error) (ok bool) {
@@ -1268,7 +1340,7 @@ func vc19IsTimeout(err error) (ok bool) {
 
 func TestVerifC19Wire(t *testing.T) {
 	st := vstat.New("C19", "websvc.wire",
-		"rapid-drawn sequences of 1-3 raw requests over one client connection (keep-alive, reconnecting when the server closes): request lines (method x path from mutated documented shapes or free segments incl. dot/encoded/empty segments x query x absolute-form x HTTP version x Content-Length or chunked body with forged trailer) and header sets (forged forwarding / client-IP headers in several spellings, repeated, with marker, empty, zero-address and other-peer values, one to three Connection lines naming them, the first possibly empty or white space); a follow-up request is usually the previous one with exactly one component changed (method, one segment, arity, keyword, spelling, header set); sent from IPv4/IPv6 loopback peers to the http.Server websvc.New builds for a linked_ip bind, recording backend; non-trivial = reached the backend, or has a dot/encoded/empty segment, or carries a forged header; distinct by (method, target, version, header names, peer family, base)",
+		"rapid-drawn sequences of 1-3 raw requests over one client connection (keep-alive, reconnecting when the server closes): request lines (method x path from mutated documented shapes or free segments incl. dot/encoded/empty segments x query x absolute-form x HTTP version x Content-Length or chunked body with forged trailer) and header sets (forged forwarding / client-IP headers in several spellings, repeated, with marker, empty, zero-address and other-peer values, one to three Connection lines naming them, the first possibly empty or white space); a follow-up request is usually the previous one with exactly one component changed (method, one segment, arity, keyword, spelling, header set); sent from IPv4/IPv6 loopback peers to the http.Server websvc.New builds for a linked_ip bind, recording backend whose answer is scripted per request (200, other final statuses, redirects 301/302/303/307/308 with Location outside / inside the API, relative / absolute, to the backend itself or to another harness listener); non-trivial = reached the backend, or has a dot/encoded/empty segment, or carries a forged header; distinct by (method, target, version, header names, peer family, base)",
 		"fwd:get-linkip", "fwd:get-linkip-status", "fwd:post-linkip", "fwd:post-ddns",
 		"local-404", "robots", "rejected-near-miss", "path:dot-segment", "path:encoded-dot-segment",
 		"forwarded+forged-header", "forwarded+client-sent-x-connecting-ip", "forwarded+connection-names-client-ip",
@@ -1276,6 +1348,9 @@ func TestVerifC19Wire(t *testing.T) {
 		"forwarded+forged-zero-or-empty-value", "forwarded+chunked-body",
 		"forwarded+connection-first-line-empty-later-names-client-ip", "forwarded+repeated-header-line",
 		"forwarded+tls-bind",
+		"backend-answered-with-a-redirect", "redirect+get-linkip", "redirect+get-linkip-status", "redirect+post-linkip", "redirect+post-ddns",
+		"redirect:301", "redirect:302", "redirect:303", "redirect:307", "redirect:308",
+		"redirect-to:relative-outside-api", "redirect-to:relative-inside-api", "redirect-to:absolute-same-backend", "redirect-to:absolute-other-listener",
 		"seq:forwarded-after-local-same-conn", "seq:local-after-forwarded-same-conn", "seq:forwarded-after-forwarded-same-conn",
 		"variant-forwarded", "variant-answered-locally")
 	st.Finish(t)
@@ -1309,7 +1384,8 @@ func TestVerifC19Wire(t *testing.T) {
 			}
 
 			caseN++
-			outcome, reused := vc19WireOne(t, st, fx, fr, cl, fam, req, strconv.Itoa(caseN))
+			plan := vc19GenPlan(t, fx.backendURL, fx.otherURL)
+			outcome, reused := vc19WireOne(t, st, fx, fr, cl, fam, req, plan, strconv.Itoa(caseN))
 			if reused && prevOutcome != "" && outcome != "rejected" && prevOutcome != "rejected" {
 				st.Class("seq:" + outcome + "-after-" + prevOutcome + "-same-conn")
 			}
@@ -1317,6 +1393,41 @@ func TestVerifC19Wire(t *testing.T) {
 			prevReq, prevOutcome = req, outcome
 		}
 	})
+}
+
+// vc19GenPlan draws the backend's answer to the next request: mostly 200, some
+// other final statuses, and redirects of every kind with Location targets
+// outside and inside the API, relative and absolute, on the backend itself and
+// on another listener.  A proxy relays such an answer; it does not act on it.
+func vc19GenPlan(t *rapid.T, backendURL, otherURL string) (p vc19Plan) {
+	switch k := rapid.IntRange(0, 9).Draw(t, "backend-answer"); {
+	case k < 6:
+		return vc19Plan{Status: http.StatusOK}
+	case k < 7:
+		return vc19Plan{Status: rapid.SampledFrom([]int{204, 400, 403, 404, 500, 503}).Draw(t, "backend-status")}
+	}
+
+	p.Status = rapid.SampledFrom([]int{301, 302, 303, 307, 308}).Draw(t, "redirect-status")
+	switch rapid.IntRange(0, 7).Draw(t, "redirect-target") {
+	case 0:
+		p.Kind, p.Location = "relative-outside-api", "/account"
+	case 1:
+		p.Kind, p.Location = "relative-outside-api", rapid.SampledFrom([]string{"/", "/account/settings?x=1", "/admin", "../../secret"}).Draw(t, "loc")
+	case 2:
+		p.Kind, p.Location = "relative-inside-api", rapid.SampledFrom([]string{"/linkip/dev9/enc9", "/linkip/dev9/enc9/status", "/ddns/dev9/enc9/example.org"}).Draw(t, "loc")
+	case 3:
+		p.Kind, p.Location = "relative-no-slash", rapid.SampledFrom([]string{"status", "other", "."}).Draw(t, "loc")
+	case 4:
+		p.Kind, p.Location = "absolute-same-backend", backendURL+rapid.SampledFrom([]string{"/account", "/", "/linkip/dev9/enc9"}).Draw(t, "loc")
+	case 5:
+		p.Kind, p.Location = "absolute-other-listener", otherURL+rapid.SampledFrom([]string{"/account", "/linkip/dev9/enc9", "/ddns/dev9/enc9/example.org"}).Draw(t, "loc")
+	case 6:
+		p.Kind, p.Location = "scheme-relative-other-listener", strings.TrimPrefix(otherURL, "http:")+"/x"
+	default:
+		p.Kind, p.Location = "absolute-other-listener", otherURL+"/"
+	}
+
+	return p
 }
 
 // vc19WireOne sends one request of a case and judges it.  outcome is
@@ -1329,6 +1440,7 @@ func vc19WireOne(
 	cl *vc19Client,
 	fam string,
 	req *vc19Req,
+	plan vc19Plan,
 	caseID string,
 ) (outcome string, reused bool) {
 	// Nothing may be left over from an earlier request.
@@ -1339,14 +1451,17 @@ func vc19WireOne(
 	fr.tap.take()
 	fx.errs.take()
 
+	fx.backend.setPlan(&plan)
+
 	wire := req.vc19Bytes(caseID)
 	resp, reused, timedOut, err := cl.do(req.Method, wire)
+	fx.backend.setPlan(nil)
 	recs := fx.backend.take()
 	calls := fr.tap.take()
 	perrs := fx.errs.take()
 
-	desc := fmt.Sprintf("request %q from %s peer %s to front base=%q (connection reused: %v, differs from the previous request in: %q)",
-		wire, fam, resp.Local, fr.base, reused, req.Variant)
+	desc := fmt.Sprintf("request %q from %s peer %s to front base=%q (connection reused: %v, differs from the previous request in: %q; backend scripted to answer %d Location=%q)",
+		wire, fam, resp.Local, fr.base, reused, req.Variant, plan.Status, plan.Location)
 
 	if timedOut {
 		fmt.Printf("VERIF-INCONCLUSIVE: time-out talking to the front server: %v (%s)\n", err, desc)
@@ -1426,6 +1541,11 @@ func vc19WireOne(
 	}
 
 	call := calls[0]
+	if len(recs) > 1 {
+		t.Fatalf("%d requests reached the harness listeners for one client request; only the client's own request may: %s; %s",
+			len(recs), vc19RecList(recs), desc)
+	}
+
 	for _, rec := range recs {
 		if rec.CaseID != caseID {
 			t.Fatalf("harness anomaly: backend request of case %q seen in case %s; %s", rec.CaseID, caseID, desc)
@@ -1460,11 +1580,11 @@ func vc19WireOne(
 
 	// --- forwarded.
 	interesting = true
-	if len(recs) > 1 {
-		t.Fatalf("backend contacted %d times for one client request: %+v; %s", len(recs), recs, desc)
+	rec := recs[0]
+	if rec.Srv != "backend" {
+		t.Fatalf("the proxy sent %s %q to a listener that is not its target; %s", rec.Method, rec.URI, desc)
 	}
 
-	rec := recs[0]
 	if rec.Method != req.Method || (rec.Method != http.MethodGet && rec.Method != http.MethodPost) {
 		t.Fatalf("backend contacted with method %q (client sent %q): only GET and POST are forwarded; backend saw %q; %s",
 			rec.Method, req.Method, rec.URI, desc)
@@ -1577,6 +1697,23 @@ func vc19WireOne(
 		classes = append(classes, "forwarded+client-got-200")
 	}
 
+	// What the client gets for a redirecting backend is not part of the
+	// statement (which limits what reaches the backend; that is judged above:
+	// one request, the client's own); whether the redirect came through
+	// unchanged is only counted.
+	if plan.redirect() {
+		if resp.Status == plan.Status && resp.Location == plan.Location {
+			classes = append(classes, "redirect-relayed-unchanged")
+		} else {
+			classes = append(classes, "redirect-not-relayed-unchanged")
+		}
+
+		classes = append(classes, "backend-answered-with-a-redirect", "redirect:"+strconv.Itoa(plan.Status),
+			"redirect-to:"+plan.Kind, "redirect+"+pv.Shape)
+	} else if plan.Status != http.StatusOK {
+		classes = append(classes, "backend-answered-with-another-status")
+	}
+
 	if st.WantSample() && len(wire) < 400 && (len(req.PathClasses) > 0 || req.ConnListsCIP) {
 		st.Sample(map[string]any{
 			"request":         string(wire),
@@ -1593,6 +1730,16 @@ func vc19WireOne(
 	done()
 
 	return "forwarded", reused
+}
+
+// vc19RecList renders what the harness listeners received.
+func vc19RecList(recs []vc19Rec) (s string) {
+	parts := make([]string, 0, len(recs))
+	for _, r := range recs {
+		parts = append(parts, fmt.Sprintf("[%s listener: %s %q X-Connecting-Ip=%q]", r.Srv, r.Method, r.URI, r.Hdr.Values("X-Connecting-Ip")))
+	}
+
+	return strings.Join(parts, " ")
 }
 
 // vc19ForgedAtBackend reports a forwarding header of the backend request whose
